@@ -117,7 +117,14 @@ func toIdentRef(bases []*meta.Identity, v interface{}) (val.IdentRef, error) {
 		x = x[colon+1:]
 	}
 
-	ref := meta.FindIdentity(bases, x)
+	// RFC 7950 Sec 9.10.2: with several bases the identity has to be derived from all of them
+	var ref *meta.Identity
+	for _, base := range bases {
+		ref = meta.FindIdentity([]*meta.Identity{base}, x)
+		if ref == nil {
+			break
+		}
+	}
 	if ref == nil {
 		return empty, fmt.Errorf("could not find identity ref for %T:'%s'", v, x)
 	}
